@@ -2,6 +2,7 @@ import EaselModel.Dist.RealInst
 import EaselModel.Dist.Spec
 import EaselModel.Dist.Lemmas
 import EaselModel.Generated.Dist
+import Mathlib.Analysis.SpecialFunctions.Log.Deriv
 import Mathlib.Tactic.Ring
 import Mathlib.Tactic.FieldSimp
 /-! Generalised extreme value distribution: L2 and L1 of the translated `esl_gev_*` at `ℝ`, outside the
@@ -35,6 +36,91 @@ theorem gevInvCdf_gevCdf {μ l α x : ℝ} (hl : l ≠ 0) (hα : α ≠ 0) (hx :
   have e : -α * -(log (gevArg μ l α x) / α) = log (gevArg μ l α x) := by field_simp
   rw [e, exp_log hx]
   unfold gevArg; field_simp; ring
+
+theorem gevCdf_nonneg (μ l α x : ℝ) : 0 ≤ gevCdf μ l α x := by
+  unfold gevCdf; split_ifs <;> first | exact le_refl _ | exact zero_le_one | exact (exp_pos _).le
+
+theorem gevCdf_le_one (μ l α x : ℝ) : gevCdf μ l α x ≤ 1 := by
+  unfold gevCdf; split_ifs
+  · exact zero_le_one
+  · exact le_refl _
+  · rw [exp_le_one_iff]; have := exp_pos (-(log (gevArg μ l α x) / α)); linarith
+
+/-- the GEV cdf is non-decreasing (either sign of `α`), across both ends of its support -/
+theorem gevCdf_mono {μ l α : ℝ} (hl : 0 < l) (hα : α ≠ 0) : Monotone (gevCdf μ l α) := by
+  intro a b hab
+  have hlin : l * (a - μ) ≤ l * (b - μ) := mul_le_mul_of_nonneg_left (by linarith) hl.le
+  rcases lt_or_gt_of_ne hα with hneg | hpos
+  · -- α < 0: the argument 1 + α y decreases
+    have harg : gevArg μ l α b ≤ gevArg μ l α a := by
+      unfold gevArg; have := mul_le_mul_of_nonpos_left hlin hneg.le; linarith
+    by_cases hb : gevArg μ l α b ≤ 0
+    · have : gevCdf μ l α b = 1 := by unfold gevCdf; rw [if_pos hb, if_neg (not_lt.mpr hneg.le)]
+      rw [this]; exact gevCdf_le_one μ l α a
+    · have hb' : 0 < gevArg μ l α b := not_le.mp hb
+      have ha' : 0 < gevArg μ l α a := lt_of_lt_of_le hb' harg
+      unfold gevCdf
+      rw [if_neg (not_le.mpr ha'), if_neg hb]
+      apply exp_le_exp.mpr
+      have hlog : log (gevArg μ l α b) ≤ log (gevArg μ l α a) := log_le_log hb' harg
+      have hdiv : log (gevArg μ l α a) / α ≤ log (gevArg μ l α b) / α := div_le_div_of_nonpos_of_le hneg.le hlog
+      have : exp (-(log (gevArg μ l α b) / α)) ≤ exp (-(log (gevArg μ l α a) / α)) := exp_le_exp.mpr (by linarith)
+      linarith
+  · -- α > 0: the argument increases
+    have harg : gevArg μ l α a ≤ gevArg μ l α b := by
+      unfold gevArg; have := mul_le_mul_of_nonneg_left hlin hpos.le; linarith
+    by_cases ha : gevArg μ l α a ≤ 0
+    · have : gevCdf μ l α a = 0 := by unfold gevCdf; rw [if_pos ha, if_pos hpos]
+      rw [this]; exact gevCdf_nonneg μ l α b
+    · have ha' : 0 < gevArg μ l α a := not_le.mp ha
+      have hb' : 0 < gevArg μ l α b := lt_of_lt_of_le ha' harg
+      unfold gevCdf
+      rw [if_neg ha, if_neg (not_le.mpr hb')]
+      apply exp_le_exp.mpr
+      have hlog : log (gevArg μ l α a) ≤ log (gevArg μ l α b) := log_le_log ha' harg
+      have hdiv : log (gevArg μ l α a) / α ≤ log (gevArg μ l α b) / α := div_le_div_of_nonneg_right hlog hpos.le
+      have : exp (-(log (gevArg μ l α b) / α)) ≤ exp (-(log (gevArg μ l α a) / α)) := exp_le_exp.mpr (by linarith)
+      linarith
+
+/-- the pdf is the derivative of the cdf on the interior of the support -/
+theorem gevCdf_hasDerivAt {μ l α x : ℝ} (hα : α ≠ 0) (hx : 0 < gevArg μ l α x) :
+    HasDerivAt (gevCdf μ l α) (gevPdf μ l α x) x := by
+  have hx' : 0 < 1 + α * (l * (x - μ)) := hx
+  have h0 : HasDerivAt (fun z : ℝ => 1 + α * (l * (z - μ))) (α * l) x := by
+    have h := ((((hasDerivAt_id x).sub_const μ).const_mul l).const_mul α).const_add 1
+    simpa using h
+  have h1 := h0.log (ne_of_gt hx')
+  have h2 : HasDerivAt (fun z : ℝ => -(log (1 + α * (l * (z - μ))) / α)) (-(α * l / (1 + α * (l * (x - μ))) / α)) x := by
+    have h := h1.const_mul (-1 / α)
+    have e : (fun z : ℝ => -(log (1 + α * (l * (z - μ))) / α)) = fun z => -1 / α * log (1 + α * (l * (z - μ))) := by
+      funext z; ring
+    rw [e]; exact h.congr_deriv (by ring)
+  have h3 := h2.exp
+  have h3n : HasDerivAt (fun z : ℝ => -exp (-(log (1 + α * (l * (z - μ))) / α)))
+      (-(exp (-(log (1 + α * (l * (x - μ))) / α)) * -(α * l / (1 + α * (l * (x - μ))) / α))) x := by
+    have h := h3.const_mul (-1)
+    have e : (fun z : ℝ => -exp (-(log (1 + α * (l * (z - μ))) / α))) =
+        fun z => -1 * exp (-(log (1 + α * (l * (z - μ))) / α)) := by funext z; ring
+    rw [e]; exact h.congr_deriv (by ring)
+  have h4 := h3n.exp
+  have hcont : ContinuousAt (fun z : ℝ => 1 + α * (l * (z - μ))) x := h0.continuousAt
+  have hev : gevCdf μ l α =ᶠ[nhds x] fun z => exp (-exp (-(log (1 + α * (l * (z - μ))) / α))) := by
+    have : ∀ᶠ z in nhds x, 0 < 1 + α * (l * (z - μ)) := hcont.eventually (lt_mem_nhds hx')
+    filter_upwards [this] with z hz
+    simp [gevCdf, gevArg, not_le.mpr hz]
+  have hp : gevPdf μ l α x = exp (-exp (-(log (1 + α * (l * (x - μ))) / α))) *
+      -(exp (-(log (1 + α * (l * (x - μ))) / α)) * -(α * l / (1 + α * (l * (x - μ))) / α)) := by
+    unfold gevPdf
+    rw [if_neg (not_le.mpr hx)]
+    have e : gevArg μ l α x = 1 + α * (l * (x - μ)) := rfl
+    rw [e]
+    have e1 : -(1 + 1 / α) * log (1 + α * (l * (x - μ))) - exp (-(log (1 + α * (l * (x - μ))) / α)) =
+        -log (1 + α * (l * (x - μ))) + (-(log (1 + α * (l * (x - μ))) / α) + -exp (-(log (1 + α * (l * (x - μ))) / α))) := by
+      field_simp; ring
+    rw [e1, exp_add, exp_add, exp_neg (log _), exp_log hx']
+    field_simp
+  rw [hp]
+  exact h4.congr_of_eventuallyEq hev
 
 /-! ## L1, GEV branch -/
 section
@@ -119,6 +205,58 @@ theorem code_surv (hl : 0 < l) (hg : ¬ |l * (x - μ) * α| < 1e-12) : |esl_gev_
       linarith
     · simp; norm_num
 
+/-- `e^{2.9} ≥ 17` and `e^{-17} ≤ 5e-8`: numbers behind the `lya1 < -2.9` switch of `esl_gev_logsurv` -/
+theorem exp_29_ge : (17 : ℝ) ≤ exp 2.9 := by
+  have h2 : (1 : ℝ) + 0.29 + 0.29 ^ 2 / 2 ≤ exp 0.29 := Real.quadratic_le_exp_of_nonneg (by norm_num)
+  have h3 : ((1 : ℝ) + 0.29 + 0.29 ^ 2 / 2) ^ 10 ≤ exp 0.29 ^ 10 := pow_le_pow_left₀ (by norm_num) h2 10
+  have h4 : exp 0.29 ^ 10 = exp 2.9 := by rw [← exp_nat_mul]; norm_num
+  rw [← h4]; refine le_trans ?_ h3; norm_num
+
+theorem exp_neg_17_le : exp (-17 : ℝ) ≤ 5e-8 := by
+  have h2 : (1 : ℝ) + 0.17 + 0.17 ^ 2 / 2 ≤ exp 0.17 := Real.quadratic_le_exp_of_nonneg (by norm_num)
+  have h3 : ((1 : ℝ) + 0.17 + 0.17 ^ 2 / 2) ^ 100 ≤ exp 0.17 ^ 100 := pow_le_pow_left₀ (by norm_num) h2 100
+  have h4 : exp 0.17 ^ 100 = exp 17 := by rw [← exp_nat_mul]; norm_num
+  have h5 : (2e7 : ℝ) ≤ exp 17 := by rw [← h4]; refine le_trans ?_ h3; norm_num
+  rw [exp_neg, inv_le_comm₀ (exp_pos _) (by norm_num)]
+  refine le_trans ?_ h5; norm_num
+
+/-- `esl_gev_logsurv` on the support, GEV branch: within `3e-8` of `log (1 - cdf)` in each of its three branches
+    (`-lya1` beyond `-½ log DBL_EPSILON`; `-exp(-e^{-lya1})` below `-2.9`; the plain formula between). -/
+theorem code_logsurv (hg : ¬ |l * (x - μ) * α| < 1e-12) (hx : 0 < gevArg μ l α x) :
+    |esl_gev_logsurv x μ l α - log (gevSurv μ l α x)| ≤ 3e-8 := by
+  unfold esl_gev_logsurv gevSurv gevCdf
+  simp only [num_exp, num_log, num_log1p, num_fabs, lit_one, lit_zero]
+  rw [if_neg (by norm_num at hg ⊢; exact hg)]
+  have h' : ¬ 1 + α * (l * (x - μ)) ≤ 0 := not_le.mpr hx
+  rw [if_neg h', if_neg (not_le.mpr hx)]
+  have e : gevArg μ l α x = 1 + α * (l * (x - μ)) := rfl
+  rw [e]
+  set s := log (1 + α * (l * (x - μ))) / α with hs
+  set t := exp (-s) with ht
+  have htpos : 0 < t := exp_pos _
+  have hlogt : log t = -s := by rw [ht, log_exp]
+  split_ifs with h1 h2
+  · obtain ⟨hsq, _⟩ := beyond_switch h1
+    have ht15 : t < 1.5e-8 := by
+      by_contra hc
+      have : (1.5e-8 : ℝ) ^ 2 ≤ t ^ 2 := pow_le_pow_left₀ (by norm_num) (not_lt.mp hc) 2
+      norm_num at this hsq; linarith
+    have := log_one_sub_exp_neg_approx htpos (by linarith)
+    rw [hlogt] at this
+    have : |-s - log (1 - exp (-t))| ≤ 2 * t := this
+    linarith
+  · have ht17 : 17 ≤ t := by
+      have : exp 2.9 ≤ t := by rw [ht]; apply exp_le_exp.mpr; norm_num at h2 ⊢; linarith
+      exact le_trans exp_29_ge this
+    have hc0 : 0 < exp (-t) := exp_pos _
+    have hc1 : exp (-t) ≤ 5e-8 := le_trans (exp_le_exp.mpr (by linarith)) exp_neg_17_le
+    have := log_one_sub_approx hc0.le (by linarith)
+    have e2 : -exp (-t) - log (1 - exp (-t)) = -(log (1 - exp (-t)) + exp (-t)) := by ring
+    rw [e2, abs_neg]
+    have : 2 * exp (-t) ^ 2 ≤ 3e-8 := by nlinarith
+    linarith
+  · simp; norm_num
+
 theorem code_invcdf {p : ℝ} (hα : ¬ |α| < 1e-12) : esl_gev_invcdf p μ l α = gevInvCdf μ l α p := by
   unfold esl_gev_invcdf gevInvCdf
   simp only [num_exp, num_log, num_expm1, num_fabs, lit_one]
@@ -146,6 +284,52 @@ theorem gumbel_branch_logpdf {x μ l α : ℝ} (hg : |l * (x - μ) * α| < 1e-12
   unfold esl_gev_logpdf esl_gumbel_logpdf
   simp only [num_exp, num_log, num_fabs]
   rw [if_pos (by norm_num at hg ⊢; exact hg)]
+
+/-- Gumbel branch of `esl_gev_surv` (its own switch at `-½ log DBL_EPSILON`): within `2.3e-16` of the Gumbel survival -/
+theorem gumbel_branch_surv {x μ l α : ℝ} (hg : |l * (x - μ) * α| < 1e-12) :
+    |esl_gev_surv x μ l α - gumbelSurv μ l x| ≤ 2.3e-16 := by
+  unfold esl_gev_surv gumbelSurv gumbelCdf
+  simp only [num_exp, num_log, num_fabs, lit_one]
+  rw [if_pos (by norm_num at hg ⊢; exact hg)]
+  set s := l * (x - μ) with hs
+  split_ifs with hsw
+  · obtain ⟨h2, h1⟩ := beyond_switch hsw
+    have hpos : 0 < exp (-s) := exp_pos _
+    have := one_sub_exp_neg_approx (t := exp (-s)) (by rw [abs_of_pos hpos]; linarith)
+    linarith
+  · simp; norm_num
+
+/-- Gumbel branch of `esl_gev_logsurv` (three-way switch): within `3e-8` of the log Gumbel survival -/
+theorem gumbel_branch_logsurv {x μ l α : ℝ} (hg : |l * (x - μ) * α| < 1e-12) :
+    |esl_gev_logsurv x μ l α - log (gumbelSurv μ l x)| ≤ 3e-8 := by
+  unfold esl_gev_logsurv gumbelSurv gumbelCdf
+  simp only [num_exp, num_log, num_fabs, lit_one]
+  rw [if_pos (by norm_num at hg ⊢; exact hg)]
+  set s := l * (x - μ) with hs
+  set t := exp (-s) with ht
+  have htpos : 0 < t := exp_pos _
+  have hlogt : log t = -s := by rw [ht, log_exp]
+  split_ifs with h1 h2
+  · obtain ⟨hsq, _⟩ := beyond_switch h1
+    have ht15 : t < 1.5e-8 := by
+      by_contra hc
+      have : (1.5e-8 : ℝ) ^ 2 ≤ t ^ 2 := pow_le_pow_left₀ (by norm_num) (not_lt.mp hc) 2
+      norm_num at this hsq; linarith
+    have := log_one_sub_exp_neg_approx htpos (by linarith)
+    rw [hlogt] at this
+    have : |-s - log (1 - exp (-t))| ≤ 2 * t := this
+    linarith
+  · have ht17 : 17 ≤ t := by
+      have : exp 2.9 ≤ t := by rw [ht]; apply exp_le_exp.mpr; norm_num at h2 ⊢; linarith
+      exact le_trans exp_29_ge this
+    have hc0 : 0 < exp (-t) := exp_pos _
+    have hc1 : exp (-t) ≤ 5e-8 := le_trans (exp_le_exp.mpr (by linarith)) exp_neg_17_le
+    have := log_one_sub_approx hc0.le (by linarith)
+    have e2 : -exp (-t) - log (1 - exp (-t)) = -(log (1 - exp (-t)) + exp (-t)) := by ring
+    rw [e2, abs_neg]
+    have : 2 * exp (-t) ^ 2 ≤ 3e-8 := by nlinarith
+    linarith
+  · simp; norm_num
 
 theorem gumbel_branch_invcdf {p μ l α : ℝ} (hα : |α| < 1e-12) : esl_gev_invcdf p μ l α = esl_gumbel_invcdf p μ l := by
   unfold esl_gev_invcdf esl_gumbel_invcdf
